@@ -103,6 +103,37 @@ def _classify_extraction(expr: ast.AST, line: str, fields: T.Dict[str, ast.AST],
     raise AnalysisError(f"C11/R3: extraction shape not enumerated: `{unparse(expr)[:70]}`")
 
 
+def vcs_marker_rule(ctx, rule: str) -> None:
+    """The VCS is detected wherever git works: the `.git` marker is tested for existence (in a linked worktree or a
+    submodule it is a regular file), not for being a directory."""
+    prog = ctx.prog
+    # the dirty check runs only if the VCS is found; in a linked worktree or a submodule `.git` is a regular file
+    iu = prog.function("vcs.VCSAPI.is_usable")
+    ctx.visit(iu.fq)
+    KIND_TESTS = {"isdir": "a directory", "isfile": "a regular file", "islink": "a symbolic link", "is_dir": "a directory", "is_file": "a regular file",
+                  "is_symlink": "a symbolic link", "ismount": "a mount point", "listdir": "a directory (listdir)", "scandir": "a directory (scandir)"}
+    n_marker = 0
+    for c in ast.walk(iu.node):
+        if not (isinstance(c, ast.Call) and isinstance(c.func, ast.Attribute)):
+            continue
+        operands = list(c.args) + [c.func.value]
+        on_marker = any("self.name" in unparse(shapes.inline(iu, o, prog)) and not unparse(o).startswith("self.subcommands") for o in operands
+                        if not (isinstance(o, ast.Name) and o.id in ("os", "sp", "subprocess")) and not unparse(o).startswith("os.path"))
+        if not on_marker:
+            continue
+        if c.func.attr in ("exists", "lexists"):
+            n_marker += 1
+            ctx.ok(rule, f"is_usable: marker tested with {c.func.attr}() (file or directory)")
+        elif c.func.attr in KIND_TESTS:
+            n_marker += 1
+            ctx.bad(rule, "vcs.VCSAPI.is_usable: the VCS marker must be " + KIND_TESTS[c.func.attr],
+                    f"`{unparse(c)}`: in a linked git worktree and in a submodule `.git` is a regular file, so no VCS is found there: "
+                    f"with commit = true the dirty check is skipped and files of a dirty tree are rewritten", loc=iu.loc(c),
+                    witness={"layout": "git worktree add ../wt; cd ../wt  (.git is a file `gitdir: ...`)"}, what="is_usable: marker tested for existence only")
+    if n_marker == 0:
+        ctx.observe("is_usable: no file-system test of the marker; detection rests on the is_usable command alone")
+
+
 def run(ctx) -> None:
     prog, effects, cfgs = ctx.prog, ctx.effects, ctx.cfgs
     ctx.rule("R1", "every feasible path to the commit step passes assert_not_dirty before any rewrite; arguments wired")
@@ -365,28 +396,4 @@ def run(ctx) -> None:
         ctx.observe("hg marks untracked files with '?', the filter compares with '??' (hg is outside C11's quantifier)")
 
     # ------------------------------------------------------------------ R5
-    # the dirty check runs only if the VCS is found; in a linked worktree or a submodule `.git` is a regular file
-    iu = prog.function("vcs.VCSAPI.is_usable")
-    ctx.visit(iu.fq)
-    KIND_TESTS = {"isdir": "a directory", "isfile": "a regular file", "islink": "a symbolic link", "is_dir": "a directory", "is_file": "a regular file",
-                  "is_symlink": "a symbolic link", "ismount": "a mount point", "listdir": "a directory (listdir)", "scandir": "a directory (scandir)"}
-    n_marker = 0
-    for c in ast.walk(iu.node):
-        if not (isinstance(c, ast.Call) and isinstance(c.func, ast.Attribute)):
-            continue
-        operands = list(c.args) + [c.func.value]
-        on_marker = any("self.name" in unparse(shapes.inline(iu, o, prog)) and not unparse(o).startswith("self.subcommands") for o in operands
-                        if not (isinstance(o, ast.Name) and o.id in ("os", "sp", "subprocess")) and not unparse(o).startswith("os.path"))
-        if not on_marker:
-            continue
-        if c.func.attr in ("exists", "lexists"):
-            n_marker += 1
-            ctx.ok("R5", f"is_usable: marker tested with {c.func.attr}() (file or directory)")
-        elif c.func.attr in KIND_TESTS:
-            n_marker += 1
-            ctx.bad("R5", "vcs.VCSAPI.is_usable: the VCS marker must be " + KIND_TESTS[c.func.attr],
-                    f"`{unparse(c)}`: in a linked git worktree and in a submodule `.git` is a regular file, so no VCS is found there: "
-                    f"with commit = true the dirty check is skipped and files of a dirty tree are rewritten", loc=iu.loc(c),
-                    witness={"layout": "git worktree add ../wt; cd ../wt  (.git is a file `gitdir: ...`)"}, what="is_usable: marker tested for existence only")
-    if n_marker == 0:
-        ctx.observe("is_usable: no file-system test of the marker; detection rests on the is_usable command alone")
+    vcs_marker_rule(ctx, "R5")
